@@ -1,19 +1,85 @@
+//! lmpy — verification harness for the Python bindings of lightmotif (C17/C18).
+//!
+//! `lmpy py <script.py> [args...]` embeds CPython (like
+//! /repo/lightmotif-py/lightmotif/tests/unittest.rs), registers the extension module
+//! built from the repository's working tree as `lightmotif.lib` (so `import lightmotif`
+//! works) and a helper module `lmcore` (src/lmcore.rs) that runs the *core* Rust
+//! library on plain Python data in the same process, sets `sys.argv = [script, args...]`
+//! and runs the script as `__main__`.
+//!
+//! The repository whose `lightmotif-py/lightmotif/__init__.py` is imported is
+//! `$VERIF_REPO` (default `/repo`); the Rust code is whatever the path dependencies
+//! of Cargo.toml point to (vlib rewrites them for scratch worktrees).
 use pyo3::prelude::*;
 use pyo3::types::{PyDict, PyList, PyModule};
 
-fn main() -> PyResult<()> {
+mod lmcore;
+
+fn main() {
     let args: Vec<String> = std::env::args().collect();
+    if args.len() < 3 || args[1] != "py" {
+        eprintln!("usage: lmpy py <script.py> [args...]");
+        std::process::exit(2);
+    }
+    if std::env::var_os("LMPY_QUIET_PANICS").is_some() {
+        std::panic::set_hook(Box::new(|_| {}));
+    }
+    let repo = std::env::var("VERIF_REPO").unwrap_or_else(|_| "/repo".to_string());
+    let repo = repo.trim_end_matches('/').to_string();
     pyo3::prepare_freethreaded_python();
-    Python::with_gil(|py| {
+    let rc = Python::with_gil(|py| -> PyResult<i32> {
         let sys = py.import_bound("sys")?;
-        sys.getattr("path")?.downcast::<PyList>()?.insert(0, "/repo/lightmotif-py")?;
-        let module = PyModule::new_bound(py, "lightmotif.lib")?;
-        lightmotif_py::init(py, &module).unwrap();
-        sys.getattr("modules")?.downcast::<PyDict>()?.set_item("lightmotif.lib", module)?;
-        if args.len() > 2 && args[1] == "py" {
-            let code = std::fs::read_to_string(&args[2]).unwrap();
-            py.run_bound(&code, None, None)?;
+        let path = sys.getattr("path")?;
+        let path = path.downcast::<PyList>()?;
+        path.insert(0, format!("{}/lightmotif-py", repo))?;
+        if let Some(dir) = std::path::Path::new(&args[2]).parent() {
+            path.insert(0, dir.to_string_lossy().to_string())?;
         }
-        Ok(())
-    })
+        let argv = PyList::new_bound(py, &args[2..]);
+        sys.setattr("argv", argv)?;
+        let modules = sys.getattr("modules")?;
+        let modules = modules.downcast::<PyDict>()?;
+        let module = PyModule::new_bound(py, "lightmotif.lib")?;
+        lightmotif_py::init(py, &module)?;
+        modules.set_item("lightmotif.lib", module)?;
+        let core = PyModule::new_bound(py, "lmcore")?;
+        lmcore::init(py, &core)?;
+        modules.set_item("lmcore", core)?;
+
+        let code = std::fs::read_to_string(&args[2])
+            .map_err(|e| pyo3::exceptions::PyOSError::new_err(format!("{}: {}", args[2], e)))?;
+        let globals = py.import_bound("__main__")?.dict();
+        globals.set_item("__file__", &args[2])?;
+        match py.run_bound(&code, Some(&globals), None) {
+            Ok(()) => Ok(0),
+            Err(e) => {
+                if e.is_instance_of::<pyo3::exceptions::PySystemExit>(py) {
+                    let code = e.value_bound(py).getattr("code")?;
+                    if code.is_none() {
+                        return Ok(0);
+                    }
+                    return Ok(code.extract::<i32>().unwrap_or(1));
+                }
+                e.print(py);
+                Ok(1)
+            }
+        }
+    });
+    // flush Python's buffered stdout/stderr before leaving
+    Python::with_gil(|py| {
+        if let Ok(sys) = py.import_bound("sys") {
+            for s in ["stdout", "stderr"] {
+                if let Ok(f) = sys.getattr(s) {
+                    let _ = f.call_method0("flush");
+                }
+            }
+        }
+    });
+    match rc {
+        Ok(c) => std::process::exit(c),
+        Err(e) => {
+            Python::with_gil(|py| e.print(py));
+            std::process::exit(1)
+        }
+    }
 }
